@@ -207,7 +207,7 @@ def step (st : St) (line : String) : St × String :=
             let upd (f : Rx → Rx) := l.map (fun x => if x.id == e.id && x.op == e.op && x.tag == e.tag && x.sids == e.sids then f x else x)
             if kind == "puback" then (acc.1.setRx c.cid (upd (fun x => { x with acked := true })), acc.2.ackOut cn e.id)
             else if kind == "pubrec" then
-              (acc.1.setRx c.cid (upd (fun x => { x with acked := true, comp := code >= 0x80 })), acc.2.pubrecOut cn e.id code)
+              (acc.1.setRx c.cid (upd (fun x => { x with acked := true, comp := code >= 0x80 && c.v == 5 })), acc.2.pubrecOut cn e.id code)
             else (acc.1.setRx c.cid (upd (fun x => { x with comp := true })), acc.2.ackOut cn e.id)) (st, b)
           finish st b
     | "rel", cn :: pid :: _ =>
